@@ -77,21 +77,32 @@ Diag(e, c) ==
   IF c = "lines" THEN
     LET r == PLB(e.list, Breaks(e), e.P, {}) got == Proj(e.v) IN
     IF ~r.ok THEN [breakpoints_unusable |-> TRUE]
-    ELSE LET j == FirstDiff(r.v, got) IN
-         [at |-> j, tex |-> IF j <= Len(r.v) THEN <<r.v[j]>> ELSE <<>>, got |-> IF j <= Len(got) THEN <<got[j]>> ELSE <<>>]
+    ELSE LET rd == PLB(e.list, Breaks(e), e.P, AllDevs)
+             \* shown against TeX plus the recorded deviations when that still differs (the new defect),
+             \* else against TeX
+             w == IF rd.ok /\ rd.v # got THEN rd.v ELSE r.v
+             j == FirstDiff(w, got)
+         IN [at |-> j, with_recorded_deviations |-> (w # r.v),
+             tex |-> IF j <= Len(w) THEN <<w[j]>> ELSE <<>>, got |-> IF j <= Len(got) THEN <<got[j]>> ELSE <<>>]
   ELSE IF c = "par_end" THEN [tex |-> ParEnd(e.orig, e.P)]
+  ELSE IF c \in {"differs_from_tex_golden", "spec_disagrees_with_tex_golden"} THEN [file |-> e.file]
   ELSE [clause |-> c]
 
 TInit == /\ l = 1 /\ L0 = <<>> /\ L = <<>> /\ B = <<>> /\ P = 0 /\ phase = "trace"
          /\ i = 0 /\ post = <<>> /\ pos = 1 /\ out = <<>> /\ hist = <<>>
-GoldenOk(e) == LET r == PLB(e.list, Breaks(e), e.P, {}) IN r.ok /\ Proj(e.tex) = r.v
+\* Golden paragraphs.  When the code made exactly what real TeX made, the specification is on trial:
+\* it must accept (strictly).  When the code made something else, the code is on trial as usual, and
+\* if every clause holds nevertheless (the list itself differs from TeX's) the difference is the verdict.
+Key(e, D) ==
+  LET c == Clause(e, D) IN
+  IF "tex" \in DOMAIN e /\ "panic" \notin DOMAIN e
+  THEN IF Proj(e.v) = Proj(e.tex)
+       THEN (IF Clause(e, {}) = "" THEN "" ELSE "spec_disagrees_with_tex_golden")
+       ELSE IF c # "" THEN c ELSE "differs_from_tex_golden"
+  ELSE c
 
 TStep == /\ l <= Len(Rec) /\ l' = l + 1 /\ UNCHANGED vars
-         /\ LET e == Rec[l] IN
-            IF "tex" \in DOMAIN e /\ "panic" \notin DOMAIN e /\ ~GoldenOk(e)
-            THEN PrintT(<<"VERDICT", ToJson([l |-> l, key |-> "spec_disagrees_with_tex_golden", diag |-> [file |-> e.file]])>>)
-            ELSE TRUE
-         /\ LET e == Rec[l] c == Clause(e, TexDevs) IN
+         /\ LET e == Rec[l] c == Key(e, TexDevs) IN
             IF c = "" THEN TRUE
             ELSE PrintT(<<"VERDICT", ToJson([l |-> l, key |-> c, diag |-> Diag(e, c)])>>)
 TSpec == TInit /\ [][TStep]_<<vars, l>>
